@@ -63,6 +63,19 @@ def store (t : PStrTy) (hints : Nat) (s : Bytes) : Except HErr Bytes :=
       | .error e => .error e
       | .ok () => .ok v
 
+/-- The store callback of the tree the model was generated from, errors as reply kinds: on a repaired tree (`fixes/F423.diff`,
+    `Generated.hexNulRefused`) a value with an embedded NUL byte is refused ("Invalid character 0x00") right after the hints check;
+    otherwise `store` (the theorems of `Props/C03Hex.lean` are about `store`; `hex_accept_whole_input_partial` is the NUL-free part the
+    two variants share). -/
+def storeCur (t : PStrTy) (hints : Nat) (s : Bytes) : Except String Bytes :=
+  match checkHints hints "string" with
+  | none => .error "Hint"
+  | some _ =>
+    if Generated.hexNulRefused && s.contains 0 then .error "BadUtf8"
+    else match store t hints s with
+      | .ok v => .ok v
+      | .error e => .error e.name
+
 /-- `value->_canonical` -/
 def canon (v : Bytes) : Bytes := v
 /-- `lyplg_type_compare_simple`: `true` = `LY_SUCCESS` -/
